@@ -16,6 +16,7 @@
      sql/compiler.py  _literal_execute_expanding_parameter_literal_binds -> [render_in_list],
                       [render_in_list_be]
      sql/compiler.py  _process_parameters_for_postcompile.process_expanding -> [process_expanding_be]
+     sql/compiler.py  _process_parameters_for_postcompile: re.sub(_post_compile_pattern, ...) -> [pcsub]
      sql/compiler.py  _process_positional (qmark/format), _process_numeric and the numeric branch of
                       _process_parameters_for_postcompile: the %(name)s passes over the finished text
                                                                -> [pysub], [find_pyformat]
@@ -399,6 +400,56 @@ Fixpoint pysub (ph : str) (skip : nat) (s : str) : str :=
   end.
 Definition positional_placeholder (p : paramstyle) : option str :=
   match p with Qmark => Some [63] | Format => Some [37; 115] | _ => None end.
+
+(* ---------------------------------------------------------------- post-compile substitution *)
+
+(* _process_parameters_for_postcompile:
+       statement = re.sub(self._post_compile_pattern, process_expanding, pre_expanded_string)
+   ONE left-to-right pass over the ORIGINAL text; what the callback returns is never scanned again.
+   [tok_at s]: the plain token  __[POSTCOMPILE_<name>]  at the start of [s] (name: non-empty, no white
+   space, up to the first ']'; the  ~~template~~  form of bind_expression types is modelled separately
+   by [process_expanding_be]).  [skip] = characters of a matched token still to be dropped. *)
+Definition PC_PREFIX : str := [95; 95; 91; 80; 79; 83; 84; 67; 79; 77; 80; 73; 76; 69; 95].
+Fixpoint strip_prefix (p s : str) : option str :=
+  match p, s with
+  | [], _ => Some s
+  | a :: p', b :: s' => if a =? b then strip_prefix p' s' else None
+  | _ :: _, [] => None
+  end.
+Fixpoint span_rb (s : str) : str * str :=
+  match s with
+  | c :: r => if c =? 93 then ([], s) else let (a, b) := span_rb r in (c :: a, b)
+  | [] => ([], [])
+  end.
+Definition name_ok (n : str) : bool :=
+  nonempty n && forallb (fun c => negb (is_ws c) && negb (c =? 93)) n.
+Definition tok_at (s : str) : option (str * str) :=
+  match strip_prefix PC_PREFIX s with
+  | Some r =>
+    match span_rb r with
+    | (name, _ :: rest) => if name_ok name then Some (name, rest) else None
+    | _ => None
+    end
+  | None => None
+  end.
+Inductive pcres := POk (s : str) | PKeyError.
+Fixpoint pcsub (f : str -> option str) (skip : nat) (s : str) : pcres :=
+  match s with
+  | [] => POk []
+  | c :: r =>
+    match skip with
+    | S k => pcsub f k r
+    | O =>
+      match tok_at s with
+      | Some (name, _) =>
+        match f name with
+        | Some v => match pcsub f (15 + length name) r with POk o => POk (v ++ o) | e => e end
+        | None => PKeyError                    (* replacement_expressions[key] *)
+        end
+      | None => match pcsub f 0 r with POk o => POk (c :: o) | e => e end
+      end
+    end
+  end.
 
 (* ================================================================== spec side *)
 
